@@ -63,14 +63,18 @@ func c13Scenario(c *Ctx, idx int, r *Rng, extra func(l, m, cs string)) (mline, m
 	// below it (D70, repaired).  lockline: a later line that gives a tracked file the `lockable` attribute only
 	// (D71, repaired).  override: a file taken out of LFS by one line and put back by a later one — Git lets the
 	// LAST matching line decide, fsck's include/exclude lists let the exclusion win (D21, known)
-	attrVariant := Pick(r, []string{"plain", "plain", "plain", "plain", "plain", "plain", "nested", "nested", "lockline", "override", "padded", "padded"})
-	nested, override := attrVariant == "nested", attrVariant == "override"
+	attrVariant := Pick(r, []string{"plain", "plain", "plain", "plain", "plain", "nested", "nested", "lockline", "override", "override", "padded", "padded", "reenable", "reenable"})
+	nested, override := attrVariant == "nested" || attrVariant == "reenable", false // D21 is repaired: `override` files are judged like all others
 	rootAttrs := "*.bin filter=lfs diff=lfs merge=lfs -text\n*.dat filter=lfs -text\n"
 	switch attrVariant {
 	case "lockline":
 		rootAttrs += "d.dat lockable\ndir/*.bin lockable\n"
 	case "override":
 		rootAttrs += "f.bin -filter\nf.bin filter=lfs -text\n"
+	case "reenable":
+		// the root file takes a directory out of LFS, the directory's own attributes file puts one pattern back: the
+		// deeper file's lines come after the root's, whatever the directory is called
+		rootAttrs += "sub/** -filter\n"
 	case "padded":
 		// an attributes file of more than 1024 bytes (a commented one): it is no candidate for a pointer, but it is
 		// still the attributes file
@@ -876,7 +880,9 @@ func c13AttrTie(c *Ctx, enc, p, rootAttrs string, nested, gitTracks, fsckNamed b
 			}
 			pat := f[0]
 			hit := false
-			if strings.Contains(pat, "/") {
+			if strings.HasSuffix(pat, "/**") {
+				hit = strings.HasPrefix(rel, strings.TrimSuffix(pat, "**"))
+			} else if strings.Contains(pat, "/") {
 				hit, _ = path.Match(pat, rel)
 			} else {
 				hit, _ = path.Match(pat, path.Base(rel))
